@@ -153,8 +153,10 @@ package render
 //@   property C13
 //@   id records
 //@   invariant 0 rangeindex >= -1 && rangeindex < len(mesh)
+//@   invariant 0 forall j int, k int :: 0 <= j && j < k && k <= rangeindex ==> !isnil(mesh[j]) && mesh[j] != mesh[k]
 //@   body 0 stlvec(d.Vertex1, (*mesh[rangeindex + 1])[0]) && stlvec(d.Vertex2, (*mesh[rangeindex + 1])[1]) && stlvec(d.Vertex3, (*mesh[rangeindex + 1])[2])
 //@   ensures [count-from-header] isnil(err) ==> len(r) == header.Count
+//@   ensures [every-record-gets-a-triangle-of-its-own] forall j int, k int :: isnil(err) && 0 <= j && j < k && k < len(r) ==> !isnil(r[j]) && r[j] != r[k]
 //@ end
 
 //-----------------------------------------------------------------------------
